@@ -257,9 +257,7 @@ def validate(seed, tier):
                                coeff=float(rng.choice([-1.5, 0.0, 0.5, 1.0, 2.0])), istart=s))
         if all(c['coeff'] == 0 for c in chains):
             continue
-        f = concrete.CHECKS['opchains'](dict(L=L, chains=chains))
-        if f:
-            raise runner.HarnessError(f'concrete check fails on the unchanged tree: {f} for {chains}')
+        runner.concrete_check('opchains', dict(L=L, chains=chains))
         n += 1
     return dict(random_chain_lists_checked_concretely=n)
 
